@@ -347,8 +347,10 @@ impl ProcfsHandle {
         // handle through its magic-link), and the final component is opened
         // directly below -- so refuse creation flags here the same way the
         // procfs resolver does for every other lookup.
+        // O_TMPFILE is O_DIRECTORY plus a second bit; check that second bit on
+        // its own, because a trailing slash below adds O_DIRECTORY for us.
         if oflags.intersects(OpenFlags::O_CREAT | OpenFlags::O_EXCL)
-            || oflags.contains(OpenFlags::O_TMPFILE)
+            || oflags.bits() & (libc::O_TMPFILE & !libc::O_DIRECTORY) != 0
         {
             Err(ErrorImpl::InvalidArgument {
                 name: "flags".into(),
